@@ -7,6 +7,7 @@ import (
 	"encoding/hex"
 	"fmt"
 	"math/big"
+	"sort"
 	"strconv"
 	"strings"
 	"time"
@@ -249,6 +250,30 @@ func (P) Exec(line string) string {
 			return "err"
 		}
 		return hex.EncodeToString(k) + " " + hex.EncodeToString(v)
+	case "unv0":
+		m, err := blockchain.VerifDeserializeUtxoEntryV0(unhex(f[2]))
+		if err != nil {
+			return "err"
+		}
+		if len(m) == 0 {
+			return "ok -"
+		}
+		keys := make([]int, 0, len(m))
+		for k := range m {
+			keys = append(keys, int(k))
+		}
+		sort.Ints(keys)
+		parts := make([]string, len(keys))
+		for i, k := range keys {
+			e := m[uint32(k)]
+			parts[i] = fmt.Sprintf("%d=%s", k, txo{uint64(e.Amount()), e.PkScript(), e.BlockHeight(), e.IsCoinBase()})
+		}
+		return "ok " + strings.Join(parts, ";")
+	case "opkey":
+		var op wire.OutPoint
+		copy(op.Hash[:], unhex(f[2]))
+		op.Index = uint32(u64(f[3]))
+		return hex.EncodeToString(blockchain.VerifOutpointKey(op))
 	case "unrow":
 		hd, st, err := blockchain.VerifDeserializeBlockRow(unhex(f[2]))
 		if err != nil {
@@ -784,4 +809,97 @@ func (P) Generate(g *core.Gen) {
 	for n := 0; n < 84; n++ {
 		g.Case("unrow-len", n > 0, "C15 unrow "+hexTok(r.Bytes(n)))
 	}
+
+	// ---- outpoint keys (utxo set database key: hash || VLQ(index))
+	for i := 0; i < g.N(300, 10000); i++ {
+		idx := r.U32() >> uint(r.Intn(32))
+		if r.Chance(1, 4) {
+			idx = uint32(r.Pick(0, 127, 128, 16511, 16512, 2113663, 2113664, 270549119, 270549120, 0xffffffff))
+		}
+		g.Case("opkey", true, fmt.Sprintf("C15 opkey %s %d", hex.EncodeToString(r.Bytes(32)), idx))
+	}
+
+	// ---- legacy v0 utxo entries (upgrade.go)
+	for i := 0; i < g.N(400, 20000); i++ {
+		enc := encV0(r)
+		malformed(g, r, "unv0", enc, "", i%20 == 0 && len(enc) < 150)
+	}
+	for _, hs := range hostileScripts(r) {
+		pre := []byte{0x01, byte(r.Intn(100)), byte(r.Pick(0x02, 0x03, 0x04, 0x06, 0x00, 0x0a))}
+		if pre[2] == 0x00 || pre[2] == 0x0a {
+			pre = append(pre, byte(1<<uint(r.Intn(8))))
+		}
+		g.Case("unv0-hostile", true, "C15 unv0 "+hexTok(bytes.Join([][]byte{pre, {0x05}, hs}, nil)))
+	}
+	for _, code := range []uint64{0, 1, 6, 7, 8, 0x0a, 0x10, 1 << 20, 1 << 34, 1<<35 + 2, 1<<64 - 1, 1<<64 - 8, 1<<63 + 2} {
+		for _, tail := range []int{0, 1, 2, 40} {
+			g.Case("unv0-code", true, "C15 unv0 "+hexTok(bytes.Join([][]byte{{0x01, 0x05}, vlqBytes(code), r.Bytes(tail)}, nil)))
+		}
+	}
+	for i := 0; i < g.N(500, 30000); i++ {
+		g.Case("unv0-random", true, "C15 unv0 "+hexTok(r.Bytes(1+r.Intn(60))))
+	}
+}
+
+// encV0 builds a well-formed legacy (version 0 format) utxo entry with a random set of unspent outputs.
+func encV0(r *core.Rand) []byte {
+	idxs := map[int]bool{}
+	n := 1 + r.Intn(5)
+	for len(idxs) < n {
+		switch r.Intn(4) {
+		case 0:
+			idxs[r.Intn(2)] = true
+		case 1:
+			idxs[r.Intn(12)] = true
+		default:
+			idxs[r.Intn(60)] = true
+		}
+	}
+	maxIdx := 0
+	for k := range idxs {
+		if k > maxIdx {
+			maxIdx = k
+		}
+	}
+	nb := 0
+	if maxIdx >= 2 {
+		nb = (maxIdx-2)/8 + 1
+	}
+	code := uint64(0)
+	if r.Bool() {
+		code |= 1
+	}
+	if idxs[0] {
+		code |= 2
+	}
+	if idxs[1] {
+		code |= 4
+	}
+	if !idxs[0] && !idxs[1] {
+		code |= uint64(nb-1) << 3
+	} else {
+		code |= uint64(nb) << 3
+	}
+	bm := make([]byte, nb)
+	for k := range idxs {
+		if k >= 2 {
+			bm[(k-2)/8] |= 1 << uint((k-2)%8)
+		}
+	}
+	out := append([]byte{}, vlqBytes(uint64(r.Intn(3)))...)
+	h := genHeight(r)
+	out = append(out, vlqBytes(uint64(uint32(h)))...)
+	out = append(out, vlqBytes(code)...)
+	out = append(out, bm...)
+	for k := 0; k <= maxIdx; k++ {
+		if idxs[k] {
+			t, _ := genTxo(r)
+			if len(t.script) > 200 {
+				t.script = t.script[:50]
+			}
+			b, _ := blockchain.VerifPutCompressedTxOut(t.amount, t.script)
+			out = append(out, b...)
+		}
+	}
+	return out
 }
